@@ -27,6 +27,9 @@ CHECKS = {
  "C20": ("exploration", "wire byte recorder (zero bytes before CONNECT), per-connection backend hook trace, response multiset matching behind a SUBSCRIBE fence through the ack queue",
          "exhaustive over all packet-kind sequences of length 1-3 x 4 credential situations written in one burst, hostile first frames, 1.5k (quick) / 30k (thorough) random pipelines of up to 40 packets with repeating ids",
          "responses to requests preceding a connection-closing packet in the same burst may be lost with the connection; only unsolicited packets are judged there", "2-C20"),
+ "C11": ("exploration", "reference retained-map model; probe subscribers, live observer, offline persistent subscriber and '#' checkpoints compared behind marker fences",
+         "120 (quick) / 2500 (thorough) histories of 14-28 steps: retained/plain/empty publishes, retained wills of dropped victims, subscriptions cycling through all 105 filters of the depth<=3 universe",
+         "per-filter replay of one SUBSCRIBE may arrive 1..k times; QoS 0 publishes for an offline persistent subscriber may be dropped", "2-C11"),
 }
 NOT_APPLICABLE = {}
 def main():
